@@ -14,13 +14,14 @@ from typing import Iterable
 class Lin:
     """c0 + sum_i c_i * sym_i with Fraction coefficients (immutable)."""
 
-    __slots__ = ("co", "c", "_h")
+    __slots__ = ("co", "c", "_h", "_n")
 
     def __init__(self, co: dict[str, Fraction] | None = None,
                  c: Fraction | int = 0) -> None:
         self.co = {k: Fraction(v) for k, v in (co or {}).items() if v != 0}
         self.c = Fraction(c)
         self._h: int | None = None
+        self._n: "Lin | None" = None
 
     @staticmethod
     def sym(name: str) -> "Lin":
@@ -86,68 +87,116 @@ class Lin:
 
 
 def _normalise(e: Lin) -> Lin:
-    """Scale so that coefficients are coprime integers (keeps direction)."""
+    """Scale so that coefficients are coprime integers (keeps direction)
+    and floor the constant (integer-valued symbols)."""
+    if e._n is not None:
+        return e._n
     if not e.co:
+        e._n = e
         return e
-    from math import gcd
-    den = 1
-    for v in list(e.co.values()) + [e.c]:
-        den = den * v.denominator // gcd(den, v.denominator)
-    nums = [int(v * den) for v in e.co.values()]
-    g = 0
-    for n in nums:
-        g = gcd(g, abs(n))
-    g = g or 1
-    f = Fraction(den, g)
-    # integer tightening: sum(ints) + c >= 0 with integer symbols
-    r = e.scale(f)
-    c = r.c
-    if c.denominator != 1:
-        import math
-        r = Lin(r.co, math.floor(c))
+    from math import gcd, floor
+    vals = list(e.co.values())
+    if all(v.denominator == 1 for v in vals):
+        g = 0
+        for v in vals:
+            g = gcd(g, abs(v.numerator))
+        if g == 1:
+            if e.c.denominator == 1:
+                e._n = e
+                return e
+            r = Lin(e.co, floor(e.c))
+        else:
+            r = Lin({k: Fraction(v.numerator // g) for k, v in e.co.items()},
+                    floor(e.c / g))
+    else:
+        den = 1
+        for v in vals:
+            den = den * v.denominator // gcd(den, v.denominator)
+        nums = {k: int(v * den) for k, v in e.co.items()}
+        g = 0
+        for n in nums.values():
+            g = gcd(g, abs(n))
+        g = g or 1
+        r = Lin({k: Fraction(n // g) for k, n in nums.items()},
+                floor(e.c * den / g))
+    r._n = r
+    e._n = r
     return r
 
 
-def fm_infeasible(cons: Iterable[Lin], max_cons: int = 4000) -> bool:
+def _tighten(cons: Iterable[Lin]) -> list[Lin] | None:
+    """Normalise, drop dominated constraints (same coefficients, keep the
+    smallest constant); None if a constant constraint is violated."""
+    best: dict[tuple, Lin] = {}
+    for c in cons:
+        c = _normalise(c)
+        if not c.co:
+            if c.c < 0:
+                return None
+            continue
+        key = tuple(sorted(c.co.items()))
+        o = best.get(key)
+        if o is None or c.c < o.c:
+            best[key] = c
+    return list(best.values())
+
+
+_FM_CACHE: dict[frozenset, bool] = {}
+
+
+def fm_infeasible(cons: Iterable[Lin], max_cons: int = 3000) -> bool:
     """Is the conjunction of `e >= 0` infeasible (over Q, with integer
     tightening of constants)?  False also when the budget is exceeded."""
-    cur = list({_normalise(c) for c in cons})
-    for c in cur:
-        if c.is_const() and c.c < 0:
-            return True
-    syms: set[str] = set()
-    for c in cur:
-        syms |= c.syms()
-    while syms:
-        # choose the symbol with the fewest pos*neg combinations
-        best = None
-        best_cost = None
-        for s in syms:
-            p = sum(1 for c in cur if c.co.get(s, 0) > 0)
-            n = sum(1 for c in cur if c.co.get(s, 0) < 0)
-            cost = p * n - p - n
-            if best_cost is None or cost < best_cost:
-                best, best_cost = s, cost
-        s = best
-        syms.discard(s)
+    cur = _tighten(cons)
+    if cur is None:
+        return True
+    key = frozenset(cur)
+    hit = _FM_CACHE.get(key)
+    if hit is not None:
+        return hit
+    res = _fm(cur, max_cons)
+    if len(_FM_CACHE) < 200000:
+        _FM_CACHE[key] = res
+    return res
+
+
+def _fm(cur: list[Lin], max_cons: int) -> bool:
+    while True:
+        pos_n: dict[str, int] = {}
+        neg_n: dict[str, int] = {}
+        for c in cur:
+            for s, v in c.co.items():
+                if v > 0:
+                    pos_n[s] = pos_n.get(s, 0) + 1
+                else:
+                    neg_n[s] = neg_n.get(s, 0) + 1
+        syms = set(pos_n) | set(neg_n)
+        if not syms:
+            return False
+        # symbols bounded on one side only: drop their constraints
+        one_sided = [s for s in syms
+                     if pos_n.get(s, 0) == 0 or neg_n.get(s, 0) == 0]
+        if one_sided:
+            os_ = set(one_sided)
+            cur = [c for c in cur if not (c.co.keys() & os_)]
+            continue
+        s = min(syms, key=lambda x: pos_n[x] * neg_n[x] - pos_n[x]
+                - neg_n[x])
         pos = [c for c in cur if c.co.get(s, 0) > 0]
         neg = [c for c in cur if c.co.get(s, 0) < 0]
         rest = [c for c in cur if s not in c.co]
-        new = set(rest)
         if len(pos) * len(neg) + len(rest) > max_cons:
             return False
+        new = list(rest)
         for p in pos:
+            a = p.co[s]
             for n in neg:
-                a = p.co[s]
                 b = -n.co[s]
-                comb = _normalise(p.scale(b) + n.scale(a))
-                if comb.is_const():
-                    if comb.c < 0:
-                        return True
-                    continue
-                new.add(comb)
-        cur = list(new)
-    return any(c.is_const() and c.c < 0 for c in cur)
+                new.append(p.scale(b) + n.scale(a))
+        cur2 = _tighten(new)
+        if cur2 is None:
+            return True
+        cur = cur2
 
 
 def cone(facts: list[Lin], goal: Lin) -> list[Lin]:
@@ -173,6 +222,14 @@ def entails(facts: list[Lin], goal: Lin) -> bool:
     """facts |= goal >= 0  (integer semantics: refute goal <= -1)."""
     if goal.is_const():
         return goal.c >= 0
+    g = _normalise(goal)
+    gk = g.co
+    for f in facts:
+        # a single fact with the same direction and a smaller constant
+        if f.co.keys() == gk.keys():
+            fn = _normalise(f)
+            if fn.co == gk and fn.c <= g.c:
+                return True
     neg = -goal - 1
     return fm_infeasible(cone(facts, goal) + [neg])
 
